@@ -138,7 +138,7 @@ PROPERTIES['C09'] = {
     ] + [
       dict(_c09('handoff%s_%s' % (bits, n), l, t, np, entry='h_ingest%s' % bits, what='MeshGL64' if bits == '64' else 'MeshGL'),
            cuts=[], defs=dict(_c09('x', l, t, np)['defs'], VF_HANDOFF=1, **({'VF_CONST_TANGENTS': 1} if n == 'tangents' else {})),
-           **({'unwind': {'auto': True, 'start': 5, 'max': 49, 'rounds': 24, 'Rb_tree': 3}} if n == 'tangents' else {}), redirect=dict(_INGEST_REDIR, **{'_ZN8manifold8Manifold4Impl15CreateHalfedges.*': 'vf_stub_CreateHalfedges'}),
+           **({'unwind': {'auto': True, 'start': 5, 'max': 49, 'rounds': 24, 'Rb_tree': 3}, 'timeout': 3000} if n == 'tangents' else {}), redirect=dict(_INGEST_REDIR, **{'_ZN8manifold8Manifold4Impl15CreateHalfedges.*': 'vf_stub_CreateHalfedges'}),
            claim='Impl::Impl(%s) SUCCESS path, lengths %s, numProp %s: the state handed to CreateHalfedges satisfies the contract the rest of the library relies on without re-validating: one TriRef per kept triangle with a registered meshID, numProp_ property values per vertex, all triangle indices < NumVert, and a run is marked hasNormals ONLY when there are >= 3 property channels (GetMeshGL / Transform treat slots 0..2 as a vector then)' % ('MeshGL64' if bits == '64' else 'MeshGL', l, ('= %s' % np) if np is not None else 'ARBITRARY'))
       for bits, n, l, t, np in (
         ('64', 'numprop4_flags', (16, 12, 0, 0, 0, 1, 0, 1, 0, 0), 'q', 4),
